@@ -6,7 +6,8 @@ real close() of the asyncio and twisted reactors) are run on no-socket connectio
 with the model after EVERY reply; the statement itself is evaluated on the implementation by `oracle` below.
 """
 import itertools, json, os
-from vf import core
+from vf import core, py2coq
+from vf.specs import hs_version
 
 META = {
     'technique': 'Coq proof (invariants over all reply sequences) on a hand-written handshake state machine + '
@@ -276,7 +277,13 @@ def load_corpus():
     return out
 
 
+def gen(ctx):
+    # (T) ProtocolVersion.has_checksumming_support is regenerated from cassandra/__init__.py; Props/C47.v bridges it to has_cs
+    ctx.generate('HsProtoVersion.v', lambda: py2coq.Translator(core.REPO, hs_version.fns()).emit())
+
+
 def run(ctx):
+    gen(ctx)
     ok = ctx.prove('Props/C47.v')
     if ctx.tier == 'thorough' and ok:
         ctx.coqchk('Props/C47.v')
